@@ -15,6 +15,7 @@ var profiles = map[string]Profile{
 	"faults":     {Name: "faults", Blocks: 24, MaxTx: 4, Oracle: true, Wrongness: 5, Faults: true, Mint: true, PeriodMax: 4},
 	"adversarial": {Name: "adversarial", Blocks: 20, MaxTx: 4, Oracle: true, Wrongness: 20, Adversarial: true, BigPeriods: true, Internal: true, Mint: true},
 	"imported":   {Name: "imported", Blocks: 16, MaxTx: 3, Oracle: true, Wrongness: 10, Faults: true, Imported: true, PeriodMax: 8, VotePeriods: []uint64{1, 1, 2}},
+	"replica":    {Name: "replica", Blocks: 24, MaxTx: 4, Oracle: true, Wrongness: 25, Jail: true, Probono: true, OracleFee: "0.5", Replica: true, MultiTx: true, PeriodMax: 12},
 	"periods":    {Name: "periods", Blocks: 20, MaxTx: 4, Oracle: true, Wrongness: 5, BigPeriods: true, Internal: true},
 }
 
@@ -32,6 +33,8 @@ type Stats struct {
 	Filled      int            `json:"setrecipients_events"`
 	Nontrivial  int            `json:"nontrivial"`
 	InvariantBroken int        `json:"invariant_broken"`
+	Replicas    int            `json:"histories_executed_twice"`
+	HashDiffs   int            `json:"app_hash_differences"`
 	Samples     []string       `json:"samples"`
 }
 
@@ -90,6 +93,19 @@ func runChainCmd(args []string) {
 			continue
 		}
 		obs := e.Run()
+		if p.Replica {
+			if e2, pi2 := NewExec(h); pi2 == nil {
+				obs2 := e2.Run()
+				for k := range obs {
+					if obs[k].Snap != nil && k < len(obs2) && obs2[k].Snap != nil && obs[k].Snap.AppHash != obs2[k].Snap.AppHash {
+						e.HashDiff = append(e.HashDiff, k)
+						st.HashDiffs++
+						fmt.Printf("HASHDIFF case=%d event=%d %s %s\n", i, k, obs[k].Snap.AppHash, obs2[k].Snap.AppHash)
+					}
+				}
+				st.Replicas++
+			}
+		}
 		nontrivial := false
 		for k, ev := range h.Events {
 			st.Events++
